@@ -327,6 +327,41 @@ def main(tier):
                     for d, w in ((d1, "after a different model"), (d2, "third"), (d2 + "x", "after a same-shape model")):
                         if owned(plugin, d) != ref_o:
                             rep.fail("output differs from the fresh seed-0 run|%s|%s run inside one process" % (plugin, w), {})
+            # two generations of the same model OVERLAPPING in one process (two threads, two directories)
+            script2 = (
+                "import sys, json, threading, importlib, generator.__main__ as g\n"
+                "import generator.model as gm\n"
+                "a = sys.argv[1:]\n"
+                "path = a[3] if a[3] != '-' else g.ir.files('generator') / 'lsp.json'\n"
+                "doc = json.load(open(path, 'rb'))\n"
+                "plugin = importlib.import_module('generator.plugins.' + a[0])\n"
+                "errs = []\n"
+                "bar = threading.Barrier(2)\n"
+                "sys.setswitchinterval(1e-4)\n"
+                "def w(d):\n"
+                "    try:\n"
+                "        spec = gm.create_lsp_model([json.loads(json.dumps(doc))])\n"
+                "        bar.wait()  # both generations start together\n"
+                "        plugin.generate(spec, d, d + '-t')\n"
+                "    except BaseException as e:\n"
+                "        errs.append(repr(e)[:300])\n"
+                "ts = [threading.Thread(target=w, args=(d,)) for d in (a[1], a[2])]\n"
+                "[t.start() for t in ts]; [t.join() for t in ts]\n"
+                "print('ERRS', errs)\n"
+                "sys.exit(1 if errs else 0)\n"
+            )
+            t1, t2 = os.path.join(root, "out-%s-th1" % plugin), os.path.join(root, "out-%s-th2" % plugin)
+            env2 = dict(os.environ, PYTHONPATH=common.REPO, PYTHONHASHSEED="0", PYTHONDONTWRITEBYTECODE="1")
+            p2 = subprocess.run([common.PY, "-c", script2, plugin, t1, t2, (mA[0] if mA else "-")], cwd=common.REPO, env=env2, capture_output=True, text=True, timeout=900)
+            with lock:
+                runs += 2
+            histories.append("%s:two generations overlapping in one process" % plugin)
+            if p2.returncode != 0:
+                rep.fail("overlapping generations in one process fail|%s" % plugin, {"tail": (p2.stdout + p2.stderr)[-600:]})
+            else:
+                for d_ in (t1, t2):
+                    if owned(plugin, d_) != ref_o:
+                        rep.fail("output differs from the fresh seed-0 run|%s|generation overlapping with another one in the same process" % plugin, {})
             # a model with anonymous literal types whose derived names collide: two processes agree, no id leaks
             mC = [pTrimC] if plugin == "testdata" else [pC]
             c1 = go("%s-C1" % plugin, models=mC, seed="0")
